@@ -106,6 +106,7 @@ type interpreter struct {
 	h             *harnessRun
 	tables        map[*value]*strTable
 	initPass      *ssa.Function
+	forkSites     map[string]int
 	derived       map[string]*strTable
 	panicDepth    int
 	panicStack    string
